@@ -290,17 +290,48 @@ def _mode_const(mode):
 
 
 def run_case(case, ctx):
+    """The judged simplification, then -- as a call history on the same objects -- the same input track
+    simplified again by the other algorithm with another tolerance, and the output simplified once more."""
+    res, tr, out = _judge(case, ctx)
+    if res["v"] != "held" or tr is None:
+        return res
+    other = "VW" if case["mode"] == "DP" else "DP"
+    tol2 = case["tol"] * (4.0 if case.get("style") != "identical" else 1.0)
+    pts_in = [[tr.getObs(i).position.getX(), tr.getObs(i).position.getY()] for i in range(tr.size())]
+    r2, _, _ = _judge({"pts": pts_in, "tol": tol2, "mode": other, "style": case.get("style")}, ctx, tr)
+    if r2["v"] == "violated":
+        r2["witness"]["history"] = "second simplify() on the same input track (first: %s, tol %r)" % (case["mode"], case["tol"])
+        r2["sig"], r2["nt"] = res["sig"], res["nt"]
+        return r2
+    if out is not None and out.size() >= 2:
+        pts_out = [[out.getObs(i).position.getX(), out.getObs(i).position.getY()] for i in range(out.size())]
+        r3, _, _ = _judge({"pts": pts_out, "tol": case["tol"] * 0.5, "mode": other, "style": case.get("style")}, ctx, out)
+        if r3["v"] == "violated":
+            r3["witness"]["history"] = "simplify() applied to the output of an earlier simplify() (%s, tol %r)" % (case["mode"], case["tol"])
+            r3["sig"], r3["nt"] = res["sig"], res["nt"]
+            return r3
+        res["cls"] = list(res["cls"]) + ["history_resimplified"]
+    return res
+
+
+def _judge(case, ctx, tr=None):
+    def violated(*a, **k):
+        return gen.violated(*a, **k), None, None
+
+    def held(*a, **k):
+        return gen.held(*a, **k), tr, out
     import importlib
     S = importlib.import_module("tracklib.algo.simplification")
     pts, tol, mode = case["pts"], case["tol"], case["mode"]
     n = len(pts)
     if n < 2 or not (tol > 0) or math.isinf(tol):
-        return gen.ood("fewer than 2 fixes or non-positive tolerance")
+        return gen.ood("fewer than 2 fixes or non-positive tolerance"), None, None
     cls = _classes(pts, tol, mode, case.get("style"))
     sig = (mode, tol, tuple(tuple(p) for p in pts))
     nontrivial = n >= 3 and len({tuple(p) for p in pts}) >= 2
     ms = _times(n)
-    tr = gen.make_track([(p[0], p[1], 0.5 * i - 1.0) for i, p in enumerate(pts)], ms)
+    if tr is None:
+        tr = gen.make_track([(p[0], p[1], 0.5 * i - 1.0) for i, p in enumerate(pts)], ms)
     before = _snapshot(tr)
     src_obs = [tr.getObs(i) for i in range(n)]
     index_of = {t: i for i, t in enumerate(before["t"])}
